@@ -34,7 +34,13 @@ func joinDecs(ds []sdkmath.LegacyDec) string {
 func genDistribution(r *hx.R) inflationtypes.InflationDistribution {
 	e18 := int64(1_000_000_000_000_000_000)
 	var a, b int64
-	switch r.Pick(4) {
+	switch r.Pick(6) {
+	case 4: // no strategic share at all, two shares that leave truncation dust: the remainder still has to leave the module account
+		a = r.Range(1, e18-1)
+		b = e18 - a
+	case 5:
+		a = r.Range(1, 999) * (e18 / 1000)
+		b = e18 - a
 	case 0:
 		a, b = 281250000000000000, 354825000000000000 // defaults
 	case 1:
